@@ -638,6 +638,11 @@ func (e *escaper) escapeTree(c context, node parse.Node, name string, line int) 
 		return out, dname
 	}
 	t := e.template(name)
+	if ht := e.ns.set[name]; ht != nil && ht.Tree == nil && ht.text.Tree == nil {
+		// The template has been replaced by New(name) and has no body yet; the underlying
+		// text/template set may still hold the body of the template it replaced.
+		t = nil
+	}
 	if t == nil {
 		// Two cases: The template exists but is empty, or has never been mentioned at
 		// all. Distinguish the cases in the error messages.
